@@ -410,6 +410,34 @@ func fieldOne(v FieldVec, variant int) string {
 	if !v.Valid && (status != entity.MergeStatusInvalid || exists) {
 		return fmt.Sprintf("specification: invalid; merge reported status %d (local ref exists: %v)", status, exists)
 	}
+	// (3) the same versions as the continuation of an identity that is already known locally (its valid beginning): an
+	// update is merged iff what it brings is valid, and a refused one leaves the local identity where it was
+	known := forgedVersion("known", "", "k@example.org", "", 20, map[string]int{"bugs-edit": 1})
+	ext := blobs
+	if v.Clocks != "none" {
+		// the chain classes bring their own first version: known = that one, extension = the second
+		known, ext = blobs[0], blobs[1:]
+	}
+	repo3 := repository.NewMockRepo()
+	localHead, id3 := storeChain(repo3, [][]byte{known})
+	hx.Must(repo3.UpdateRef("refs/identities/"+id3.String(), localHead))
+	remoteHead, _ := storeChain(repo3, append([][]byte{known}, ext...))
+	hx.Must(repo3.UpdateRef("refs/remotes/origin/identities/"+id3.String(), remoteHead))
+	n = 0
+	for res := range identity.MergeAll(repo3, "origin") {
+		status = res.Status
+		n++
+	}
+	now, _ := repo3.ResolveRef("refs/identities/" + id3.String())
+	if n != 1 {
+		return fmt.Sprintf("update of a known identity: MergeAll produced %d results", n)
+	}
+	if v.Valid && (status != entity.MergeStatusUpdated || now != remoteHead) {
+		return fmt.Sprintf("specification: a valid update of a known identity; merge reported status %d (local ref moved to the remote head: %v)", status, now == remoteHead)
+	}
+	if !v.Valid && (status != entity.MergeStatusInvalid || now != localHead) {
+		return fmt.Sprintf("specification: an invalid update of a known identity must be refused; merge reported status %d (local ref untouched: %v)", status, now == localHead)
+	}
 	return ""
 }
 
